@@ -241,6 +241,7 @@ pub fn run_case(case: &Case) -> Result<(bool, Vec<&'static str>, bool), Failure>
     }
     // through the simulation builder, both include orders
     for order in 0..2 {
+        let mut pretyped: Vec<(usize, String)> = Vec::new();
         let what = if order == 0 { "include_cfg before node()" } else { "node() before include_cfg" };
         let mut sim = Sim::new(());
         let r = catch(|| {
@@ -251,6 +252,19 @@ pub fn run_case(case: &Case) -> Result<(bool, Vec<&'static str>, bool), Failure>
                 sim.node(path.join("."), Dummy);
             }
             if order == 1 {
+                // a property that was typed (written) before the late include keeps type and value
+                for (mi, path) in mods.iter().enumerate() {
+                    let want = expected_for(path, &entries);
+                    if let Some(k) = want.keys().nth(mi % 3) {
+                        if mi % 2 == 0 {
+                            let m = sim.get(&ObjectPath::from(path.join("."))).expect("module exists");
+                            if let Ok(mut p) = m.prop::<i64>(k) {
+                                p.set(123_456_789);
+                                pretyped.push((mi, k.clone()));
+                            }
+                        }
+                    }
+                }
                 sim.include_cfg(&text);
             }
         });
@@ -259,9 +273,31 @@ pub fn run_case(case: &Case) -> Result<(bool, Vec<&'static str>, bool), Failure>
             vfail!("capture-panicked", "{what}: panicked: {msg} @ {loc}\nconfig:\n{text}");
         }
         let mut res = Ok(());
-        for path in &mods {
-            let want = expected_for(path, &entries);
+        for (mi, path) in mods.iter().enumerate() {
+            let mut want = expected_for(path, &entries);
             let m = sim.get(&ObjectPath::from(path.join("."))).expect("module exists");
+            for (pm, k) in &pretyped {
+                if *pm != mi {
+                    continue;
+                }
+                // typed before the include: the late entry must neither retype nor replace it
+                want.get_mut(k).map(|v| v.push(Value::Number(123_456_789i64.into())));
+                let as_other = m.prop::<String>(k).is_ok();
+                let as_same = m.prop::<i64>(k).ok().and_then(|p| p.get());
+                if as_other || as_same != Some(123_456_789) {
+                    res = Err(Failure::new(
+                        "late-include-retyped-property",
+                        format!(
+                            "module '{}' wrote property '{k}' as i64 = 123456789 before include_cfg; afterwards reading it as String {} and as i64 gives {as_same:?}\nconfig:\n{text}",
+                            path.join("."),
+                            if as_other { "succeeds" } else { "fails" }
+                        ),
+                    ));
+                }
+            }
+            if res.is_err() {
+                break;
+            }
             let keys = m.props_keys();
             res = check_props(what, path, keys, &mut |k| m.prop_raw(k).as_value(), &want)
                 .map_err(|f| Failure::new(f.sig, format!("{}\nconfig:\n{text}", f.msg)));
